@@ -553,6 +553,7 @@ func (d *driver) run() {
 			d.sealRaces(round, sorted)
 			d.parPasses(round, sorted)
 			d.useLock(sorted)
+			d.proxyScripts(round, sorted)
 			d.overlapRegress(sorted)
 			nrep := 2
 			if !quick {
